@@ -491,6 +491,9 @@ def make_machine(col, stage, tier, checks, profile=None, max_conns=3, kinds=('me
         if 'deep' in kinds:
             @rule(data=st.data())
             def deep_reuse(self, data): self._step(data, 'deep')
+        if 'dead_creates' in kinds:
+            @rule(data=st.data())
+            def queued_event_after_delete_id_creates_an_object(self, data): self._step(data, 'dead_creates')
         if 'long_line' in kinds:
             @rule(data=st.data())
             def line_longer_than_4096_characters(self, data):
